@@ -685,7 +685,7 @@ func init() {
 		QuickRuns: 300000, QuickSecs: 25, ThoroughRuns: 6000, ThoroughSecs: 600,
 		Components: map[string]interface{}{
 			"real_instrumented": []string{"pault.ag/go/debian/changelog (Parse, ParseOne, ParseFile, ParseFileOne)", "pault.ag/go/debian/version (Parse, String)", "bufio, time (stdlib)"},
-			"stub": []string{"simio.Reader (the stream: delivery schedule, EOF placement, EIO)", "verifsim/simos (the file entry points: torn file, failing open/read call)"},
+			"stub":              []string{"simio.Reader (the stream: delivery schedule, EOF placement, EIO)", "verifsim/simos (the file entry points: torn file, failing open/read call)"},
 		},
 		Assumptions: []string{"reference renderer and entry model written from deb-changelog(5), independent of the library", "time.Time comparison trusts the Go standard library"},
 	})
